@@ -167,7 +167,48 @@ def kill_count_is_successful_signals(ctx):
         ctx.check(cvar is not None, "tryToKillPids-returns-count", "return_table", tkp.loc(r),
                   "returns the count", "returns " + ret_text(tkp, r))
 
+def kmsg_sink_takes_whole_records(ctx):
+    """'One structured oomd kill line is written to the kmsg sink' for every kill: Log::kmsgLog makes one attempt per record and gives
+    up on an error, so the descriptor it writes to must be one on which a write waits until the record is taken - it is opened for
+    writing, appending, and without O_NONBLOCK (with it, a sink whose reader is behind - a FIFO or tty given by --kmsg-override -
+    answers EAGAIN and the record of a kill that did happen is dropped).  Nothing switches the descriptor afterwards (no fcntl on it)."""
+    P = ctx.prog
+    O_ACCMODE, O_WRONLY, O_RDWR, O_APPEND, O_NONBLOCK, O_TRUNC = 3, 1, 2, 0o2000, 0o4000, 0o1000
+    f = ctx.use(ctx.fn1("Oomd::Log::init"))
+    opens = [i for i in f.calls("open", "openat", "open64") if not (f.nodes[i].get("callee") or "").startswith(("Oomd::", "std::"))]
+    ctx.counters["kmsg_open_sites"] = len(opens)
+    ctx.floor("kmsg_open_sites", 1, "open of the kmsg sink in Log::init")
+    for i in opens:
+        a = f.nodes[i].get("args", [])
+        fl = a[2] if f.nodes[i].get("cname") == "openat" and len(a) > 2 else (a[1] if len(a) > 1 else None)
+        v = const_int(f, fl) if fl is not None else None
+        if v is None:
+            ctx.broken("kmsg-sink-takes-whole-records:flags", "anchor", f.loc(i), "the open flags of the kmsg sink are not a constant the front end folds: %s" % (
+                f.text(fl) if fl is not None else "?"))
+            continue
+        ctx.check((v & O_ACCMODE) in (O_WRONLY, O_RDWR) and not (v & O_NONBLOCK), "kmsg-sink-takes-whole-records:open-flags", "constant (folded flags)", f.loc(i),
+                  "the kmsg sink is opened for writing and blocking (flags %#o)" % v,
+                  "Log::init opens the kmsg sink with flags %#o (%s): %s" % (v, f.text(fl)[:80],
+                      "with O_NONBLOCK a write to a sink that cannot take the record right now fails with EAGAIN and Log::kmsgLog, which makes one attempt, "
+                      "drops the 'oomd kill' record of a kill that did happen" if v & O_NONBLOCK else "it is not opened for writing, so no record is ever written"))
+        ctx.check(bool(v & O_APPEND) and not (v & O_TRUNC), "kmsg-sink-takes-whole-records:appends", "constant (folded flags)", f.loc(i),
+                  "records are appended, earlier ones kept", "Log::init opens the kmsg sink with flags %#o: %s" % (
+                      v, "opening truncates what an earlier run wrote" if v & O_TRUNC else "without O_APPEND a sink file shared with another writer has its records overwritten"))
+    n_fc = 0
+    for g in P.fns.values():
+        if not g.file.startswith("oomd/Log."):
+            continue
+        for i in g.calls("fcntl", "ioctl"):
+            n_fc += 1
+            ctx.use(g)
+            ctx.check(False, "kmsg-sink-takes-whole-records:no-mode-switch:%s@%d" % (short(g), g.nodes[i].get("line", 0)), "who-may-call", g.loc(i),
+                      "the logger does not change the mode of its descriptor", "%s calls %s: the mode the kmsg descriptor was opened with (blocking, appending) "
+                      "is what the one-attempt write in Log::kmsgLog relies on" % (g.pq, g.text(i)[:80]))
+    ctx.ok("kmsg-sink-takes-whole-records:no-mode-switch", "who-may-call", "-", "%d fcntl/ioctl calls in the logger" % n_fc)
+
+
 def run(ctx):
+    kmsg_sink_takes_whole_records(ctx)
     fs_setxattr_always_writes(ctx, "C17")
     from .C19 import stat_update_is_applied_before_return
     stat_update_is_applied_before_return(ctx, "C17")
